@@ -377,6 +377,8 @@ mod macros;
 mod span;
 #[doc(hidden)]
 pub mod util;
+#[cfg(fastrace_verif)]
+pub mod verif;
 
 pub use fastrace_macro::trace;
 
